@@ -122,6 +122,17 @@ def gen_pair(r, fam):
         d = _unif(r)[1]
         a = (lon(), d)
         b = (lon(), d + r.choice([0.0, r.uniform(-1e-5, 1e-5), 10 ** r.uniform(-12, -6)]))
+    elif fam == "turns":                      # any longitudes: several turns, both directions, both points independently
+        a, b = _unif(r), _unif(r)
+        if r.random() < 0.4:                  # ... also for close / far pairs
+            b = _offset(a[0], a[1], r.choice([10 ** r.uniform(-9, -2), 180.0 - 10 ** r.uniform(-9, 0), r.uniform(0, 180)]),
+                        r.uniform(0, 360))
+
+        def wind(x):
+            k = r.choice([-3, -2, -1, -1, 0, 1, 2, 3])
+            return x - 360.0 if (k == 0 and r.random() < 0.5) else x + 360.0 * k     # k = 0: the [-180, 180] convention
+        a = (wind(a[0]), a[1])
+        b = (wind(b[0]), b[1])
     elif fam == "equal":                      # identical inputs (exact zero required)
         a = _unif(r)
         k = r.random()
@@ -147,7 +158,7 @@ def gen_pair(r, fam):
     return [float(x) for x in p]
 
 
-FAMILIES = ["uniform", "tiny", "antipodal", "large", "poles", "seam", "equal", "same-direction"]
+FAMILIES = ["uniform", "tiny", "antipodal", "large", "poles", "seam", "equal", "same-direction", "turns"]
 
 
 def to_unit(p, uin, snap):
@@ -169,15 +180,23 @@ def to_unit(p, uin, snap):
     return q
 
 
-def shift_exact(pts, which):
-    """the points with 360 added to the chosen longitude(s), or None unless every addition is exact"""
+def shift_exact(pts, which, uin="deg", k=1):
+    """the points with k full turns (k any non-zero integer) added to the chosen longitude(s), in the unit of the call.
+    Degrees: 360 k, and None unless every addition is exact.  Radians: k * fl(2 pi), rounded once more by the
+    addition -- the denoted point moves by at most |k| * 2.5e-16 + half an ulp of the longitude (radians), far below
+    the tolerance of the comparison, for the longitudes generated (|lon| < 2000 rad); None beyond that."""
     out = []
     for p in pts:
         q = list(p)
         for i in ((0,) if which == "ra1" else (2,) if which == "ra2" else (0, 2)):
-            q[i] = p[i] + 360.0
-            if Fraction(q[i]) != Fraction(p[i]) + 360:
-                return None
+            if uin == "deg":
+                q[i] = p[i] + 360.0 * k
+                if Fraction(q[i]) != Fraction(p[i]) + 360 * k:
+                    return None
+            else:
+                q[i] = p[i] + 2 * math.pi * k
+                if abs(q[i]) > 2000.0 or abs(p[i]) > 2000.0:
+                    return None
         out.append(q)
     return out
 
@@ -568,11 +587,12 @@ def run_case(c):
         bad = [x for x in rs if x[0] != "ok"]
         out["elem"] = bad[0] if bad else ("ok", [x[1][0] for x in rs])
     out["shifted"] = None
-    if c.get("shift") and uin == "deg":
-        sp = shift_exact(pts, c["shift"])
+    if c.get("shift") and (uin == "deg" or form in ("plain", "be", "strided", "reversed", "readonly", "alias", "mixedforms",
+                                                  "npscalar", "0d", "tuple")):
+        sp = shift_exact(pts, c["shift"], uin, int(c.get("turns", 1)))
         if sp is not None and form == "f4" and not all(f4_exact(x) for q in sp for x in q):
             sp = None
-        if sp is not None and form == "u2" and any(x > 65535 for q in sp for x in q):
+        if sp is not None and form == "u2" and any(x > 65535 or x < 0 for q in sp for x in q):
             sp = None
         if sp is not None and not (cont == "bcast" and c["shift"] != "ra2"):
             out["shifted"] = call_impl(fn, uin, uout, cont, sp, form=form, kw=kw)
@@ -649,9 +669,12 @@ class Sep(Entry):
         pts = [conform(to_unit(gen_pair(r, r.choice(fams)), uin, snap), form, uin) for _ in range(n)]
         if container == "bcast":
             pts = [[pts[0][0], pts[0][1], p[2], p[3]] for p in pts]
-        shift = r.choice(["ra1", "ra2", "both"]) if ((snap or form in INT_FORMS) and shift_ok and uin == "deg") else None
+        shift = r.choice(["ra1", "ra2", "both"]) if ((snap or form in INT_FORMS or uin == "rad") and shift_ok) else None
         c = {"fn": self.fn, "uin": uin, "uout": uout, "container": container, "pts": pts, "shift": shift,
              "family": label or ("%s/%s" % (fam, container))}
+        if shift and r.random() < 0.6:            # several turns, both directions (default: one turn forward)
+            # radians: occasionally many turns (longitudes beyond 360 rad are legal radian input)
+            c["turns"] = r.choice([-3, -2, -1, 2, 3] + ([r.choice([-60, -11, 17, 59])] if uin == "rad" else []))
         if form != "plain":
             c["form"] = form
         if kw != "given":
@@ -675,7 +698,7 @@ class Sep(Entry):
     def form_cases(self, ctx, k):
         """the input forms of the audit (docs/reports/C08.md): every form with adversarial families"""
         r, cs = ctx.rng, []
-        fams = ["poles", "antipodal", "large", "seam", "equal", "uniform", "tiny", "same-direction"]
+        fams = ["poles", "antipodal", "large", "seam", "equal", "uniform", "tiny", "same-direction", "turns"]
         kws = ["tuple", "positional", "omitted"] if self.fn == "sphdist" else ["getangle-false", "getangle-true"]
         for rep_ in range(k):
             for form in FORMS_ARRAY:
@@ -713,7 +736,8 @@ class Sep(Entry):
                 if ints:
                     p = [float(r.randrange(0, 7)), float(r.choice([-1, 0, 1])), float(r.randrange(0, 7)), float(r.choice([-1, 0, 1]))]
                 else:
-                    p = [r.uniform(0.0, 6.28), r.uniform(-1.5, 1.5), r.uniform(0.0, 6.28), r.uniform(-1.5, 1.5)]
+                    lo, hi = r.choice([(0.0, 6.28), (-3.14, 3.14), (-20.0, 20.0)])     # both conventions, several turns
+                    p = [r.uniform(lo, hi), r.uniform(-1.5, 1.5), r.uniform(lo, hi), r.uniform(-1.5, 1.5)]
                     k_ = r.random()
                     if k_ < 0.2:
                         p[2] = p[0]
@@ -976,7 +1000,7 @@ def cert_pool(entries, ctx, budget):
                      "out": sh[1][i], "family": "shifted+360/" + c["family"]})
     # round-robin over (function, family) groups, the families of the quantifier's adversarial list first, so that
     # every prefix of the pool (the first batch always runs) is spread over all of them; units are mixed inside a group
-    prio = ["poles", "tiny", "antipodal", "large", "forms", "seq", "seam", "uniform", "same-direction", "shifted+360", "mixed", "equal"]
+    prio = ["poles", "tiny", "antipodal", "large", "turns", "forms", "seq", "seam", "uniform", "same-direction", "shifted+360", "mixed", "equal"]
     groups = {}
     for k in sorted(byfam):
         groups.setdefault((prio.index(k[1]) if k[1] in prio else len(prio), k[1], k[0]), []).extend(byfam[k])
